@@ -1,1 +1,1290 @@
-fn main() { println!("c05"); }
+//! C05 driver — per-document operations under concurrency, on the REAL TieredEngine built against the
+//! recording parking_lot (harness/vendor).
+//!
+//!   c05 --out DIR --n N [--tier quick|thorough] [--replay FILE]      (VERIF_SEED in the environment)
+//!
+//! (i)   solo:     every modelled call alone, from planted states (fresh / stale / corrupt / orphaned
+//!                 cache and mirror entries), recorder on: result, post-state and the lock
+//!                 acquire/release sequence are written as Gallina literals; coqc compares them with
+//!                 Model/Conc05.v (`skel_check`).
+//! (ii)  directed: two calls A, B on the real engine; A is stopped by the gate table before its j-th
+//!                 top-level critical section (every j), B runs to completion, A resumes.  Results and
+//!                 post-state are compared with the model run of the same phase schedule
+//!                 (`phase_check`); the direct oracles (register linearizability, mixed
+//!                 vector/metadata pairs) run on the observations.  The two witness schedules of
+//!                 C05_pairing_refuted are members of this family and are reported separately.
+//! (iii) stress:   seeded 2-3 thread programs on 2 ids, OS-scheduled, recorder on; oracles: per-key
+//!                 register linearizability (Wing-Gong search), "value canonical at some instant of
+//!                 the call interval" from the recorder's global order, pair consistency.
+use kyrodb_engine::cache_strategy::{CacheStrategy, LruCacheStrategy};
+use kyrodb_engine::coherence::{digest_embedding, VectorCoherenceToken};
+use kyrodb_engine::config::DistanceMetric;
+use kyrodb_engine::tiered_engine::{TieredEngine, TieredEngineConfig};
+use kyrodb_engine::{CachedVector, FsyncPolicy, QueryHashCache};
+use parking_lot::verif_trace as vt;
+use serde_json::{json, Value};
+use std::collections::{BTreeMap, HashMap, HashSet};
+use std::fmt::Write as _;
+use std::sync::{Arc, Barrier};
+use std::time::{Duration, Instant};
+
+// ------------------------------------------------------------------------------------------------
+// rng (splitmix64, one state)
+// ------------------------------------------------------------------------------------------------
+struct Rng(u64);
+impl Rng {
+    fn from_env() -> Self {
+        let s = std::env::var("VERIF_SEED").ok().and_then(|x| x.parse::<u64>().ok()).unwrap_or(1);
+        Rng(s ^ 0xC05C_05C0_5C05_C05C)
+    }
+    fn next(&mut self) -> u64 {
+        self.0 = self.0.wrapping_add(0x9E37_79B9_7F4A_7C15);
+        let mut z = self.0;
+        z = (z ^ (z >> 30)).wrapping_mul(0xBF58_476D_1CE4_E5B9);
+        z = (z ^ (z >> 27)).wrapping_mul(0x94D0_49BB_1331_11EB);
+        z ^ (z >> 31)
+    }
+    fn below(&mut self, n: u64) -> u64 {
+        self.next() % n
+    }
+}
+
+// ------------------------------------------------------------------------------------------------
+// tagged values
+// ------------------------------------------------------------------------------------------------
+const DIM: usize = 4;
+const MAX_TAG: u32 = 6000;
+
+fn vec_of(tag: u32) -> Vec<f32> {
+    vec![tag as f32, 1.0, 0.0, 0.0]
+}
+fn meta_of(tag: u32) -> HashMap<String, String> {
+    let mut m = HashMap::new();
+    m.insert("w".to_string(), tag.to_string());
+    m
+}
+fn tag_of_vec(v: &[f32]) -> Option<u32> {
+    if v.len() == DIM && v[1] == 1.0 && v[2] == 0.0 && v[3] == 0.0 && v[0] >= 0.0 && v[0] < MAX_TAG as f32 && v[0].fract() == 0.0 {
+        let t = v[0] as u32;
+        if vec_of(t).iter().zip(v).all(|(a, b)| a.to_bits() == b.to_bits()) {
+            return Some(t);
+        }
+    }
+    None
+}
+fn tag_of_meta(m: &HashMap<String, String>) -> Option<u32> {
+    if m.len() != 1 {
+        return None;
+    }
+    m.get("w").and_then(|s| s.parse::<u32>().ok())
+}
+
+struct Digests(HashMap<(u64, u64), u32>);
+impl Digests {
+    fn new() -> Self {
+        let mut h = HashMap::new();
+        for t in 0..MAX_TAG {
+            let d = digest_embedding(&vec_of(t));
+            h.insert((d.hi, d.lo), t);
+        }
+        Digests(h)
+    }
+    fn tag(&self, t: &VectorCoherenceToken) -> Option<u32> {
+        self.0.get(&(t.digest.hi, t.digest.lo)).copied()
+    }
+}
+fn tok(ver: u64, vtag: u32) -> VectorCoherenceToken {
+    VectorCoherenceToken::new(ver, digest_embedding(&vec_of(vtag)))
+}
+
+// ------------------------------------------------------------------------------------------------
+// the engine under test
+// ------------------------------------------------------------------------------------------------
+struct World {
+    eng: Arc<TieredEngine>,
+    strat: Arc<LruCacheStrategy>,
+    _dir: tempfile::TempDir,
+    cold_inserts: usize,
+}
+const MAX_ELEMENTS: usize = 20_000;
+
+fn mk_world(scratch: &str) -> World {
+    std::fs::create_dir_all(scratch).unwrap();
+    let dir = tempfile::Builder::new().prefix("w").tempdir_in(scratch).unwrap();
+    let cfg = TieredEngineConfig {
+        hot_tier_max_size: 100_000,
+        hot_tier_hard_limit: 200_000,
+        hot_tier_max_age: Duration::from_secs(3600),
+        hnsw_max_elements: MAX_ELEMENTS,
+        embedding_dimension: DIM,
+        hnsw_distance: DistanceMetric::Euclidean,
+        data_dir: Some(dir.path().to_string_lossy().to_string()),
+        fsync_policy: FsyncPolicy::Never,
+        snapshot_interval: 0,
+        max_wal_size_bytes: 1 << 40,
+        flush_interval: Duration::from_secs(3600),
+        ..Default::default()
+    };
+    let strat = Arc::new(LruCacheStrategy::new(4096));
+    let shared: Arc<dyn CacheStrategy> = strat.clone();
+    let qc = Arc::new(QueryHashCache::new(16, 0.85));
+    let eng = TieredEngine::new_with_shared_strategy(shared, qc, vec![], vec![], cfg).expect("engine");
+    World { eng: Arc::new(eng), strat, _dir: dir, cold_inserts: 0 }
+}
+
+/// (vector tag, token version, tag of the vector whose digest the token carries)
+#[derive(Clone, Debug, PartialEq, Eq)]
+struct Ent {
+    vec: u32,
+    ver: u64,
+    dig: u32,
+}
+#[derive(Clone, Debug, PartialEq, Eq, Default)]
+struct IdState {
+    cold: Option<(u32, u32, u64)>,
+    hot: Option<(Ent, u32)>,
+    l1: Option<Ent>,
+}
+
+fn plant(w: &mut World, id: u64, st: &IdState) {
+    let cold = w.eng.cold_tier();
+    let _ = cold.delete(id);
+    if let Some((v, m, ver)) = st.cold {
+        for _ in 1..ver {
+            cold.insert(id, vec_of(5999), meta_of(5999)).expect("plant cold");
+            w.cold_inserts += 1;
+        }
+        cold.insert(id, vec_of(v), meta_of(m)).expect("plant cold");
+        w.cold_inserts += 1;
+    }
+    let hot = w.eng.hot_tier();
+    hot.delete(id);
+    if let Some((e, m)) = &st.hot {
+        hot.insert_with_coherence(id, vec_of(e.vec), meta_of(*m), tok(e.ver, e.dig));
+    }
+    w.strat.invalidate(id);
+    if let Some(e) = &st.l1 {
+        w.strat.insert_cached(CachedVector {
+            doc_id: id,
+            embedding: vec_of(e.vec),
+            coherence: tok(e.ver, e.dig),
+            distance: 0.0,
+            cached_at: Instant::now(),
+        });
+    }
+}
+
+fn observe(w: &World, dg: &Digests, id: u64) -> Result<IdState, String> {
+    let mut st = IdState::default();
+    if let Some(c) = w.strat.peek_cached(id) {
+        st.l1 = Some(Ent {
+            vec: tag_of_vec(&c.embedding).ok_or("l1 vector not in pool")?,
+            ver: c.coherence.version,
+            dig: dg.tag(&c.coherence).ok_or("l1 digest not in pool")?,
+        });
+    }
+    if let Some((e, t)) = w.eng.hot_tier().peek_with_coherence(id) {
+        let m = w.eng.hot_tier().get_metadata(id).ok_or("hot entry without metadata")?;
+        st.hot = Some((
+            Ent { vec: tag_of_vec(&e).ok_or("hot vector not in pool")?, ver: t.version, dig: dg.tag(&t).ok_or("hot digest not in pool")? },
+            tag_of_meta(&m).ok_or("hot metadata not in pool")?,
+        ));
+    }
+    if let Some((e, t)) = w.eng.cold_tier().fetch_document_with_coherence(id) {
+        let m = w.eng.cold_tier().fetch_metadata(id).ok_or("cold record without metadata")?;
+        let vt_ = tag_of_vec(&e).ok_or("cold vector not in pool")?;
+        if dg.tag(&t) != Some(vt_) {
+            return Err("cold digest is not the digest of the cold vector".into());
+        }
+        st.cold = Some((vt_, tag_of_meta(&m).ok_or("cold metadata not in pool")?, t.version));
+    }
+    Ok(st)
+}
+
+// ------------------------------------------------------------------------------------------------
+// calls and results
+// ------------------------------------------------------------------------------------------------
+#[derive(Clone, Debug, PartialEq, Eq)]
+enum Call {
+    Query(u64),
+    GetEmb(u64),
+    GetDoc(u64),
+    Bulk(Vec<u64>),
+    Insert(u64, u32, u32),
+    Delete(u64),
+}
+#[derive(Clone, Debug, PartialEq, Eq)]
+enum Res {
+    Vec(u64, Option<u32>),
+    Doc(u64, Option<(u32, u32)>),
+    Bulk(Vec<(u64, Option<(u32, u32)>)>),
+    Ins(bool),
+    Del(bool),
+    Bad(String),
+}
+
+fn exec(eng: &TieredEngine, c: &Call) -> Res {
+    match c {
+        Call::Query(id) => match eng.query_with_source(*id, None) {
+            None => Res::Vec(*id, None),
+            Some((v, _tier)) => match tag_of_vec(&v) {
+                Some(t) => Res::Vec(*id, Some(t)),
+                None => Res::Bad(format!("query returned a vector outside the pool: {:?}", v)),
+            },
+        },
+        Call::GetEmb(id) => match eng.get_embedding_cache_aware(*id) {
+            None => Res::Vec(*id, None),
+            Some(v) => match tag_of_vec(&v) {
+                Some(t) => Res::Vec(*id, Some(t)),
+                None => Res::Bad(format!("get_embedding returned a vector outside the pool: {:?}", v)),
+            },
+        },
+        Call::GetDoc(id) => match eng.get_document_with_metadata(*id) {
+            None => Res::Doc(*id, None),
+            Some((v, m)) => match (tag_of_vec(&v), tag_of_meta(&m)) {
+                (Some(a), Some(b)) => Res::Doc(*id, Some((a, b))),
+                _ => Res::Bad(format!("get_document returned values outside the pool: {:?} {:?}", v, m)),
+            },
+        },
+        Call::Bulk(ids) => {
+            let rs = eng.bulk_query_with_source(ids, true);
+            let mut out = vec![];
+            for (i, r) in rs.into_iter().enumerate() {
+                match r {
+                    None => out.push((ids[i], None)),
+                    Some((v, m, _)) => match (tag_of_vec(&v), tag_of_meta(&m)) {
+                        (Some(a), Some(b)) => out.push((ids[i], Some((a, b)))),
+                        _ => return Res::Bad(format!("bulk returned values outside the pool: {:?} {:?}", v, m)),
+                    },
+                }
+            }
+            Res::Bulk(out)
+        }
+        Call::Insert(id, v, m) => Res::Ins(eng.insert(*id, vec_of(*v), meta_of(*m)).is_ok()),
+        Call::Delete(id) => match eng.delete(*id) {
+            Ok(b) => Res::Del(b),
+            Err(e) => Res::Bad(format!("delete failed: {}", e)),
+        },
+    }
+}
+
+fn call_json(c: &Call) -> Value {
+    match c {
+        Call::Query(id) => json!({"op": "query_with_source", "id": id}),
+        Call::GetEmb(id) => json!({"op": "get_embedding_cache_aware", "id": id}),
+        Call::GetDoc(id) => json!({"op": "get_document_with_metadata", "id": id}),
+        Call::Bulk(ids) => json!({"op": "bulk_query_with_source", "ids": ids}),
+        Call::Insert(id, v, m) => json!({"op": "insert", "id": id, "vec_tag": v, "meta_tag": m}),
+        Call::Delete(id) => json!({"op": "delete", "id": id}),
+    }
+}
+fn call_from_json(v: &Value) -> Call {
+    let id = v["id"].as_u64().unwrap_or(0);
+    match v["op"].as_str().unwrap_or("") {
+        "query_with_source" => Call::Query(id),
+        "get_embedding_cache_aware" => Call::GetEmb(id),
+        "get_document_with_metadata" => Call::GetDoc(id),
+        "bulk_query_with_source" => Call::Bulk(v["ids"].as_array().unwrap().iter().map(|x| x.as_u64().unwrap()).collect()),
+        "insert" => Call::Insert(id, v["vec_tag"].as_u64().unwrap() as u32, v["meta_tag"].as_u64().unwrap() as u32),
+        "delete" => Call::Delete(id),
+        o => panic!("unknown op {}", o),
+    }
+}
+fn res_json(r: &Res) -> Value {
+    match r {
+        Res::Vec(id, v) => json!({"id": id, "vec_tag": v}),
+        Res::Doc(id, p) => json!({"id": id, "vec_tag": p.map(|x| x.0), "meta_tag": p.map(|x| x.1), "found": p.is_some()}),
+        Res::Bulk(rs) => json!(rs.iter().map(|(id, p)| json!({"id": id, "vec_tag": p.map(|x| x.0), "meta_tag": p.map(|x| x.1), "found": p.is_some()})).collect::<Vec<_>>()),
+        Res::Ins(b) => json!({"insert_ok": b}),
+        Res::Del(b) => json!({"delete_found": b}),
+        Res::Bad(s) => json!({"undecodable": s}),
+    }
+}
+fn state_json(s: &IdState) -> Value {
+    json!({
+        "cold": s.cold.map(|(v, m, ver)| json!({"vec_tag": v, "meta_tag": m, "version": ver})),
+        "hot": s.hot.as_ref().map(|(e, m)| json!({"vec_tag": e.vec, "meta_tag": m, "token_version": e.ver, "token_digest_of": e.dig})),
+        "l1": s.l1.as_ref().map(|e| json!({"vec_tag": e.vec, "token_version": e.ver, "token_digest_of": e.dig})),
+    })
+}
+fn state_from_json(v: &Value) -> IdState {
+    let ent = |x: &Value| Ent { vec: x["vec_tag"].as_u64().unwrap() as u32, ver: x["token_version"].as_u64().unwrap(), dig: x["token_digest_of"].as_u64().unwrap() as u32 };
+    IdState {
+        cold: if v["cold"].is_null() { None } else { Some((v["cold"]["vec_tag"].as_u64().unwrap() as u32, v["cold"]["meta_tag"].as_u64().unwrap() as u32, v["cold"]["version"].as_u64().unwrap())) },
+        hot: if v["hot"].is_null() { None } else { Some((ent(&v["hot"]), v["hot"]["meta_tag"].as_u64().unwrap() as u32)) },
+        l1: if v["l1"].is_null() { None } else { Some(ent(&v["l1"])) },
+    }
+}
+
+// ------------------------------------------------------------------------------------------------
+// Gallina literals
+// ------------------------------------------------------------------------------------------------
+fn g_vec(tag: u32) -> String {
+    let v = vec_of(tag);
+    format!("[{}]%Z", v.iter().map(|x| x.to_bits().to_string()).collect::<Vec<_>>().join("; "))
+}
+fn g_meta(tag: u32) -> String {
+    format!("[(0, {})]%N", tag)
+}
+fn g_tok(ver: u64, dig: u32) -> String {
+    format!("({}%N, {})", ver, g_vec(dig))
+}
+fn g_opt(o: Option<String>) -> String {
+    match o {
+        Some(s) => format!("(Some {})", s),
+        None => "None".to_string(),
+    }
+}
+fn g_lent(e: &Ent) -> String {
+    format!("(mkL {} {})", g_vec(e.vec), g_tok(e.ver, e.dig))
+}
+fn g_hent(e: &Ent, m: u32) -> String {
+    format!("(mkH {} {} {})", g_vec(e.vec), g_meta(m), g_tok(e.ver, e.dig))
+}
+fn g_crec(c: (u32, u32, u64)) -> String {
+    format!("(mkC {} {} {}%N)", g_vec(c.0), g_meta(c.1), c.2)
+}
+fn g_shared(sts: &[(u64, IdState)]) -> String {
+    let cold: Vec<String> = sts.iter().filter_map(|(id, s)| s.cold.map(|c| format!("({}%N, {})", id, g_crec(c)))).collect();
+    let l1: Vec<String> = sts.iter().filter_map(|(id, s)| s.l1.as_ref().map(|e| format!("({}%N, {})", id, g_lent(e)))).collect();
+    let hot: Vec<String> = sts.iter().filter_map(|(id, s)| s.hot.as_ref().map(|(e, m)| format!("({}%N, {})", id, g_hent(e, *m)))).collect();
+    format!("(mkSh [{}] [{}] [{}])", cold.join("; "), l1.join("; "), hot.join("; "))
+}
+fn g_post(sts: &[(u64, IdState)]) -> String {
+    let v: Vec<String> = sts
+        .iter()
+        .map(|(id, s)| {
+            format!(
+                "({}%N, ({}, {}, {}))",
+                id,
+                g_opt(s.l1.as_ref().map(g_lent)),
+                g_opt(s.hot.as_ref().map(|(e, m)| g_hent(e, *m))),
+                g_opt(s.cold.map(g_crec))
+            )
+        })
+        .collect();
+    format!("[{}]", v.join("; "))
+}
+fn g_call(c: &Call) -> String {
+    match c {
+        Call::Query(id) => format!("(CQuery true {}%N)", id),
+        Call::GetEmb(id) => format!("(CGetEmb {}%N)", id),
+        Call::GetDoc(id) => format!("(CGetDoc {}%N)", id),
+        Call::Bulk(ids) => format!("(CBulk [{}]%N)", ids.iter().map(|x| x.to_string()).collect::<Vec<_>>().join("; ")),
+        Call::Insert(id, v, m) => format!("(CInsert {}%N {} {})", id, g_vec(*v), g_meta(*m)),
+        Call::Delete(id) => format!("(CDelete {}%N)", id),
+    }
+}
+fn g_pair(p: Option<(u32, u32)>) -> String {
+    g_opt(p.map(|(v, m)| format!("({}, {})", g_vec(v), g_meta(m))))
+}
+fn g_res(r: &Res) -> Option<String> {
+    Some(match r {
+        Res::Vec(id, v) => format!("(RVec {}%N {})", id, g_opt(v.map(g_vec))),
+        Res::Doc(id, p) => format!("(RDoc {}%N {})", id, g_pair(*p)),
+        Res::Bulk(rs) => format!("(RBulk [{}])", rs.iter().map(|(id, p)| format!("({}%N, {})", id, g_pair(*p))).collect::<Vec<_>>().join("; ")),
+        Res::Ins(b) => format!("(RIns {})", b),
+        Res::Del(b) => format!("(RDel {})", b),
+        Res::Bad(_) => return None,
+    })
+}
+
+// ------------------------------------------------------------------------------------------------
+// lock classes
+// ------------------------------------------------------------------------------------------------
+#[derive(Clone, Debug, PartialEq, Eq)]
+enum Cls {
+    Model(&'static str),
+    Ignored,
+    Unknown(String),
+}
+struct Classes {
+    src: HashMap<String, Vec<String>>,
+    memo: HashMap<(String, u32), Cls>,
+}
+impl Classes {
+    fn new() -> Self {
+        Classes { src: HashMap::new(), memo: HashMap::new() }
+    }
+    fn field(&mut self, file: &str, line: u32) -> Option<String> {
+        if !self.src.contains_key(file) {
+            let text = std::fs::read_to_string(file).unwrap_or_default();
+            self.src.insert(file.to_string(), text.lines().map(|s| s.to_string()).collect());
+        }
+        let lines = &self.src[file];
+        let mut i = line as usize;
+        let lo = i.saturating_sub(4);
+        while i > lo && i >= 1 {
+            if let Some(l) = lines.get(i - 1) {
+                let t = l.trim_start();
+                let t = t.strip_prefix("let mut ").or_else(|| t.strip_prefix("let ")).unwrap_or(t);
+                let name: String = t.chars().take_while(|c| c.is_alphanumeric() || *c == '_').collect();
+                let rest = &t[name.len()..].trim_start();
+                if !name.is_empty() && (rest.starts_with(':') || rest.starts_with('=')) && !rest.starts_with("::") && !rest.starts_with("==") && name != "Self" && name != "Ok" && name != "Some" {
+                    return Some(name);
+                }
+            }
+            i -= 1;
+        }
+        None
+    }
+    fn classify(&mut self, created: Option<(&'static str, u32, u32)>) -> Cls {
+        let Some((file, line, _)) = created else { return Cls::Unknown("creation-site-unknown".into()) };
+        let key = (file.to_string(), line);
+        if let Some(c) = self.memo.get(&key) {
+            return c.clone();
+        }
+        let stem = std::path::Path::new(file).file_stem().map(|s| s.to_string_lossy().to_string()).unwrap_or_default();
+        let field = self.field(file, line).unwrap_or_else(|| format!("@{}", line));
+        let c = match (stem.as_str(), field.as_str()) {
+            ("vector_cache", "state") => Cls::Model("LkL1"),
+            ("hot_tier", "documents") => Cls::Model("LkHot"),
+            ("hnsw_backend", "doc_store") => Cls::Model("LkStore"),
+            ("hnsw_backend", "index") => Cls::Model("LkIndex"),
+            ("hnsw_backend", "metadata_index") => Cls::Model("LkMetaIdx"),
+            ("hnsw_backend", "write_gate") => Cls::Model("LkGate"),
+            ("hnsw_backend", "wal") => Cls::Model("LkWal"),
+            ("hnsw_backend", "snapshot_lock") => Cls::Model("LkSnap"),
+            ("hnsw_backend", "inserts_since_snapshot") => Cls::Model("LkInsCnt"),
+            ("query_hash_cache", "state") => Cls::Model("LkQc"),
+            ("query_hash_cache", "stats") => Cls::Model("LkQcAux"),
+            // statistics, breakers, HNSW-internal scratch: no effect on the modelled state
+            ("vector_cache", "stats") | ("hot_tier", "stats") | ("tiered_engine", "stats") | ("tiered_engine", "last_hot_tier_coherence_audit") => Cls::Ignored,
+            ("circuit_breaker", _) | ("ann_backend", _) | ("metrics", _) => Cls::Ignored,
+            _ => Cls::Unknown(format!("{}::{}", stem, field)),
+        };
+        self.memo.insert(key, c.clone());
+        c
+    }
+}
+
+/// lock instructions of the relevant classes + ordinals (among this thread's blocking acquisitions) of the
+/// first acquisition of every top-level relevant critical section
+struct Skeleton {
+    instrs: Vec<String>,
+    section_ordinals: Vec<u32>,
+    anomalies: Vec<String>,
+}
+fn skeleton(cl: &mut Classes, evs: &[vt::Event], thread: u64) -> Skeleton {
+    let mut sk = Skeleton { instrs: vec![], section_ordinals: vec![], anomalies: vec![] };
+    let mut depth_all = 0i32;
+    let mut ordinal = 0u32;
+    for e in evs.iter().filter(|e| e.thread == thread && e.kind != vt::Kind::Marker) {
+        if e.phase == vt::Phase::Req {
+            if e.op == vt::Op::Acquire {
+                ordinal += 1;
+            }
+            continue;
+        }
+        let c = cl.classify(e.created);
+        let mode = match e.mode {
+            vt::Mode::Read | vt::Mode::ReadRecursive => "MRead",
+            vt::Mode::Write => "MWrite",
+            vt::Mode::Upgradable => "MUpgr",
+            vt::Mode::Mutex => "MMutex",
+            vt::Mode::None => "?",
+        };
+        match e.op {
+            vt::Op::Acquire | vt::Op::TryAcquire | vt::Op::TimedAcquire => {
+                if !e.ok {
+                    continue;
+                }
+                if e.op != vt::Op::Acquire {
+                    sk.anomalies.push(format!("non-blocking acquisition of {:?}", c));
+                }
+                match &c {
+                    Cls::Model(n) => {
+                        if depth_all == 0 {
+                            sk.section_ordinals.push(ordinal);
+                        }
+                        sk.instrs.push(format!("LAcq {} {}", n, mode));
+                    }
+                    Cls::Ignored => {}
+                    Cls::Unknown(s) => sk.anomalies.push(format!("lock of unknown class {} (created {:?})", s, e.created)),
+                }
+                depth_all += 1;
+            }
+            vt::Op::Release => {
+                depth_all -= 1;
+                if let Cls::Model(n) = &c {
+                    sk.instrs.push(format!("LRel {}", n));
+                }
+            }
+            vt::Op::Upgrade | vt::Op::TryUpgrade | vt::Op::TimedUpgrade => {
+                if e.ok {
+                    if let Cls::Model(n) = &c {
+                        sk.instrs.push(format!("LUpg {}", n));
+                    }
+                }
+            }
+            other => sk.anomalies.push(format!("unexpected lock operation {:?} on {:?}", other, c)),
+        }
+    }
+    if depth_all != 0 {
+        sk.anomalies.push(format!("unbalanced acquire/release (depth {})", depth_all));
+    }
+    sk
+}
+
+// ------------------------------------------------------------------------------------------------
+// per-key register linearizability (Wing-Gong search; histories are tiny)
+// ------------------------------------------------------------------------------------------------
+#[derive(Clone, Debug)]
+enum Kop {
+    /// the register becomes Some(vector tag) / None
+    Write(Option<u32>),
+    /// a write that answered Err: may or may not have taken effect
+    MaybeWrite(Option<u32>),
+    Read(Option<u32>),
+}
+#[derive(Clone, Debug)]
+struct Hop {
+    inv: u64,
+    res: u64,
+    op: Kop,
+    who: String,
+}
+fn linearizable(init: Option<u32>, ops: &[Hop]) -> bool {
+    let n = ops.len();
+    assert!(n <= 24);
+    let mut seen: HashSet<(u32, Option<u32>)> = HashSet::new();
+    fn go(ops: &[Hop], done: u32, reg: Option<u32>, seen: &mut HashSet<(u32, Option<u32>)>) -> bool {
+        let n = ops.len();
+        if done == (1u32 << n) - 1 {
+            return true;
+        }
+        if !seen.insert((done, reg)) {
+            return false;
+        }
+        // minimal response among pending operations: an operation may go first only if it was invoked before that
+        let min_res = (0..n).filter(|i| done & (1 << i) == 0).map(|i| ops[i].res).min().unwrap();
+        for i in 0..n {
+            if done & (1 << i) != 0 || ops[i].inv > min_res {
+                continue;
+            }
+            match &ops[i].op {
+                Kop::Write(v) => {
+                    if go(ops, done | (1 << i), *v, seen) {
+                        return true;
+                    }
+                }
+                Kop::MaybeWrite(v) => {
+                    if go(ops, done | (1 << i), *v, seen) || go(ops, done | (1 << i), reg, seen) {
+                        return true;
+                    }
+                }
+                Kop::Read(v) => {
+                    if *v == reg && go(ops, done | (1 << i), reg, seen) {
+                        return true;
+                    }
+                }
+            }
+        }
+        false
+    }
+    go(ops, 0, init, &mut seen)
+}
+
+/// per-key operations of one completed call
+fn key_ops(c: &Call, r: &Res, inv: u64, res: u64, who: &str) -> Vec<(u64, Hop)> {
+    let h = |op: Kop| Hop { inv, res, op, who: who.to_string() };
+    match (c, r) {
+        (Call::Query(_), Res::Vec(id, v)) | (Call::GetEmb(_), Res::Vec(id, v)) => vec![(*id, h(Kop::Read(*v)))],
+        (Call::GetDoc(_), Res::Doc(id, p)) => vec![(*id, h(Kop::Read(p.map(|x| x.0))))],
+        (Call::Bulk(_), Res::Bulk(rs)) => rs.iter().map(|(id, p)| (*id, h(Kop::Read(p.map(|x| x.0))))).collect(),
+        (Call::Insert(id, v, _), Res::Ins(true)) => vec![(*id, h(Kop::Write(Some(*v))))],
+        (Call::Insert(id, v, _), Res::Ins(false)) => vec![(*id, h(Kop::MaybeWrite(Some(*v))))],
+        (Call::Delete(id), Res::Del(_)) => vec![(*id, h(Kop::Write(None)))],
+        _ => vec![],
+    }
+}
+
+/// pairs (vector, metadata) returned together
+fn pairs_of(r: &Res) -> Vec<(u64, u32, u32)> {
+    match r {
+        Res::Doc(id, Some((v, m))) => vec![(*id, *v, *m)],
+        Res::Bulk(rs) => rs.iter().filter_map(|(id, p)| p.map(|(v, m)| (*id, v, m))).collect(),
+        _ => vec![],
+    }
+}
+
+// ------------------------------------------------------------------------------------------------
+// cases
+// ------------------------------------------------------------------------------------------------
+struct Out {
+    coq_solo: Vec<String>,
+    coq_dir: Vec<String>,
+    all_cases: Vec<Value>,
+    oracle_failures: Vec<Value>,
+    histogram: BTreeMap<String, u64>,
+    samples: Vec<Value>,
+    nontrivial: HashSet<String>,
+    observations: BTreeMap<String, (u64, Value)>,
+    harness_problems: Vec<Value>,
+}
+impl Out {
+    fn hist(&mut self, k: &str) {
+        *self.histogram.entry(k.to_string()).or_insert(0) += 1;
+    }
+    fn observe(&mut self, k: &str, example: Value) {
+        let e = self.observations.entry(k.to_string()).or_insert((0, example));
+        e.0 += 1;
+    }
+}
+
+fn op_name(c: &Call) -> &'static str {
+    match c {
+        Call::Query(_) => "query",
+        Call::GetEmb(_) => "get_embedding",
+        Call::GetDoc(_) => "get_document_with_metadata",
+        Call::Bulk(_) => "bulk_query",
+        Call::Insert(..) => "insert",
+        Call::Delete(_) => "delete",
+    }
+}
+
+const ID: u64 = 7;
+const ID2: u64 = 8;
+// tags: 1 = canonical v1, 2 = canonical v2 (version 2), 3 = corrupt payload, 11/12/13 = writes of A / B
+fn catalogue() -> Vec<(&'static str, IdState)> {
+    let e = |vec: u32, ver: u64, dig: u32| Ent { vec, ver, dig };
+    vec![
+        ("absent", IdState { cold: None, hot: None, l1: None }),
+        ("fresh-insert", IdState { cold: Some((1, 1, 1)), hot: Some((e(1, 1, 1), 1)), l1: None }),
+        ("cold+l1", IdState { cold: Some((1, 1, 1)), hot: None, l1: Some(e(1, 1, 1)) }),
+        ("stale-mirror-and-l1", IdState { cold: Some((2, 2, 2)), hot: Some((e(1, 1, 1), 1)), l1: Some(e(1, 1, 1)) }),
+        ("corrupt-mirror-and-l1", IdState { cold: Some((1, 1, 1)), hot: Some((e(3, 1, 1), 1)), l1: Some(e(3, 1, 1)) }),
+        ("orphans", IdState { cold: None, hot: Some((e(1, 1, 1), 1)), l1: Some(e(1, 1, 1)) }),
+        ("all-fresh", IdState { cold: Some((1, 1, 1)), hot: Some((e(1, 1, 1), 1)), l1: Some(e(1, 1, 1)) }),
+        ("cold-only", IdState { cold: Some((1, 1, 1)), hot: None, l1: None }),
+    ]
+}
+fn id2_state() -> IdState {
+    IdState { cold: Some((4, 4, 1)), hot: Some((Ent { vec: 4, ver: 1, dig: 4 }, 4)), l1: None }
+}
+fn calls_a() -> Vec<Call> {
+    vec![
+        Call::Query(ID),
+        Call::GetEmb(ID),
+        Call::GetDoc(ID),
+        Call::Bulk(vec![ID]),
+        Call::Bulk(vec![ID, ID2]),
+        Call::Insert(ID, 11, 11),
+        Call::Delete(ID),
+    ]
+}
+fn calls_b(st: &IdState) -> Vec<Call> {
+    let mut v = vec![Call::Insert(ID, 12, 12), Call::Delete(ID), Call::Query(ID), Call::GetDoc(ID)];
+    if let Some((cv, _, _)) = st.cold {
+        // same vector, different metadata
+        v.push(Call::Insert(ID, cv, 13));
+    }
+    v
+}
+
+fn refresh_world(w: &mut World, scratch: &str) {
+    if w.cold_inserts + 64 > MAX_ELEMENTS / 2 {
+        *w = mk_world(scratch);
+    }
+}
+
+/// run `c` alone with the recorder on; returns (result, events of this thread, thread number)
+fn traced(w: &World, c: &Call) -> (Res, Vec<vt::Event>, u64) {
+    vt::drain();
+    vt::enable();
+    let me = vt::current_thread_no();
+    let r = exec(&w.eng, c);
+    vt::disable();
+    (r, vt::drain(), me)
+}
+
+struct Directed {
+    ra: Res,
+    rb: Res,
+    gate_timeout: bool,
+    gate_fired: bool,
+}
+fn directed(w: &World, a: &Call, b: &Call, ordinal: u32) -> Directed {
+    vt::drain();
+    vt::reset_events();
+    vt::clear_gates();
+    vt::add_gate(vt::Gate {
+        thread_label: 1,
+        lock: vt::LockSel::Any,
+        mode: None,
+        op: Some(vt::Op::Acquire),
+        nth: ordinal,
+        phase: vt::Phase::Req,
+        signal: Some(1),
+        wait: Some(2),
+        timeout_ms: 8000,
+    });
+    vt::enable();
+    let (e1, e2) = (w.eng.clone(), w.eng.clone());
+    let (a1, b1) = (a.clone(), b.clone());
+    let t1 = std::thread::spawn(move || {
+        vt::set_thread_label(1);
+        let r = exec(&e1, &a1);
+        // if the gate never fired (should not happen) let the other thread go
+        vt::signal(1);
+        r
+    });
+    let t2 = std::thread::spawn(move || {
+        vt::set_thread_label(2);
+        let fired = vt::wait_event(1, Duration::from_millis(8000));
+        let r = exec(&e2, &b1);
+        vt::signal(2);
+        (r, fired)
+    });
+    let (rb, _) = t2.join().expect("thread B");
+    let ra = t1.join().expect("thread A");
+    vt::disable();
+    vt::clear_gates();
+    let evs = vt::drain();
+    let mut timeout = false;
+    let mut fired = false;
+    for e in &evs {
+        if let Some(t) = &e.text {
+            if t.starts_with("gate-timeout") {
+                timeout = true;
+            }
+            if t.starts_with("gate-wait") {
+                fired = true;
+            }
+        }
+    }
+    Directed { ra, rb, gate_timeout: timeout, gate_fired: fired }
+}
+
+/// oracles over a directed pair: B's interval lies inside A's
+fn directed_oracles(sts: &[(u64, IdState)], a: &Call, ra: &Res, b: &Call, rb: &Res) -> Vec<(String, String)> {
+    let mut fails = vec![];
+    for (who, r) in [("A", ra), ("B", rb)] {
+        if let Res::Bad(s) = r {
+            fails.push(("unwritten-value".to_string(), format!("{}: {}", who, s)));
+        }
+    }
+    let mut per_key: BTreeMap<u64, Vec<Hop>> = BTreeMap::new();
+    for (id, h) in key_ops(a, ra, 0, 3, "A").into_iter().chain(key_ops(b, rb, 1, 2, "B")) {
+        per_key.entry(id).or_default().push(h);
+    }
+    for (id, ops) in &per_key {
+        let init = sts.iter().find(|(i, _)| i == id).and_then(|(_, s)| s.cold.map(|c| c.0));
+        if !linearizable(init, ops) {
+            fails.push(("linearizability".to_string(), format!("id {}: initial {:?}, history {:?} has no linearisation", id, init, ops)));
+        }
+    }
+    // pairs: some single version (initial or written by A / B) must carry both components
+    let mut versions: Vec<(u64, u32, u32)> = sts.iter().filter_map(|(id, s)| s.cold.map(|c| (*id, c.0, c.1))).collect();
+    for c in [a, b] {
+        if let Call::Insert(id, v, m) = c {
+            versions.push((*id, *v, *m));
+        }
+    }
+    for (who, r) in [("A", ra), ("B", rb)] {
+        for (id, v, m) in pairs_of(r) {
+            if !versions.contains(&(id, v, m)) {
+                fails.push(("pairing".to_string(), format!("{} returned vector of write {} with metadata of write {} for id {}; versions of that id: {:?}", who, v, m, id, versions.iter().filter(|x| x.0 == id).collect::<Vec<_>>())));
+            }
+        }
+    }
+    fails
+}
+
+fn run_solo_and_directed(w: &mut World, scratch: &str, cl: &mut Classes, dg: &Digests, out: &mut Out, quick: bool, case_no: &mut usize) {
+    let cat = catalogue();
+    for (sname, st) in &cat {
+        for a in calls_a() {
+            refresh_world(w, scratch);
+            let sts: Vec<(u64, IdState)> = vec![(ID, st.clone()), (ID2, id2_state())];
+            for (id, s) in &sts {
+                plant(w, *id, s);
+            }
+            // ---------- (i) solo, traced
+            let (ra, evs, me) = traced(w, &a);
+            let sk = skeleton(cl, &evs, me);
+            let post: Result<Vec<(u64, IdState)>, String> = sts.iter().map(|(id, _)| observe(w, dg, *id).map(|s| (*id, s))).collect();
+            let id_no = *case_no;
+            *case_no += 1;
+            out.hist(&format!("solo/{}", op_name(&a)));
+            let mut case = json!({"case": id_no, "kind": "solo", "state_name": sname,
+                "states": sts.iter().map(|(id, s)| json!({"id": id, "state": state_json(s)})).collect::<Vec<_>>(),
+                "call": call_json(&a), "result": res_json(&ra), "locks": sk.instrs, "sections": sk.section_ordinals.len()});
+            let mut problem = None;
+            if !sk.anomalies.is_empty() {
+                problem = Some(format!("lock trace anomalies: {:?}", sk.anomalies));
+            }
+            match (&post, g_res(&ra)) {
+                (Ok(p), Some(gr)) if problem.is_none() => {
+                    out.coq_solo.push(format!(
+                        "({}%nat, skel_check {} {} {} {} [{}])",
+                        id_no, g_shared(&sts), g_call(&a), gr, g_post(p), sk.instrs.join("; ")
+                    ));
+                }
+                (Err(e), _) => problem = Some(format!("post-state not decodable: {}", e)),
+                (_, None) => problem = Some("result not decodable".to_string()),
+                _ => {}
+            }
+            if let Some(p) = &problem {
+                case["harness_problem"] = json!(p);
+                out.harness_problems.push(case.clone());
+            }
+            for (k, why) in directed_oracles(&sts, &a, &ra, &Call::Query(999), &Res::Vec(999, None)) {
+                out.oracle_failures.push(json!({"kind": k, "why": why, "case": case.clone()}));
+            }
+            if out.samples.len() < 2 && matches!(a, Call::Insert(..)) {
+                out.samples.push(case.clone());
+            }
+            out.all_cases.push(case);
+            if problem.is_some() {
+                continue;
+            }
+            // ---------- (ii) directed: pause A before each of its top-level sections
+            let nsec = sk.section_ordinals.len();
+            for b in calls_b(st) {
+                for (j, ord) in sk.section_ordinals.iter().enumerate() {
+                    if quick && nsec > 6 && j % 2 == 1 && !matches!(a, Call::GetDoc(_) | Call::Bulk(_)) && !matches!(b, Call::Delete(_)) {
+                        // quick tier: thin out the long programs (insert) for the read-only B's
+                        if matches!(b, Call::Query(_) | Call::GetDoc(_)) {
+                            continue;
+                        }
+                    }
+                    refresh_world(w, scratch);
+                    for (id, s) in &sts {
+                        plant(w, *id, s);
+                    }
+                    let d = directed(w, &a, &b, *ord);
+                    let post: Result<Vec<(u64, IdState)>, String> = sts.iter().map(|(id, _)| observe(w, dg, *id).map(|s| (*id, s))).collect();
+                    let id_no = *case_no;
+                    *case_no += 1;
+                    out.hist(&format!("directed/{}|{}", op_name(&a), op_name(&b)));
+                    let mut case = json!({"case": id_no, "kind": "directed", "state_name": sname,
+                        "states": sts.iter().map(|(id, s)| json!({"id": id, "state": state_json(s)})).collect::<Vec<_>>(),
+                        "thread_A": call_json(&a), "thread_B": call_json(&b),
+                        "schedule": format!("A performs {} of its {} atomic steps; B runs to completion; A resumes", j, nsec),
+                        "pause_before_section": j, "pause_at_acquisition_ordinal": ord,
+                        "result_A": res_json(&d.ra), "result_B": res_json(&d.rb)});
+                    let mut problem = None;
+                    if d.gate_timeout || !d.gate_fired {
+                        problem = Some(format!("gate did not act as planned (fired={}, timeout={})", d.gate_fired, d.gate_timeout));
+                    }
+                    match (&post, g_res(&d.ra), g_res(&d.rb)) {
+                        (Ok(p), Some(ga), Some(gb)) if problem.is_none() => {
+                            out.coq_dir.push(format!(
+                                "({}%nat, phase_check {} [[{}]; [{}]] [(0%nat, Some {}%nat); (1%nat, None); (0%nat, None)] [(0%nat, 0%nat, {}); (1%nat, 0%nat, {})] {})",
+                                id_no, g_shared(&sts), g_call(&a), g_call(&b), j, ga, gb, g_post(p)
+                            ));
+                        }
+                        (Err(e), _, _) => problem = Some(format!("post-state not decodable: {}", e)),
+                        (Ok(_), _, _) if problem.is_none() => problem = Some("result not decodable".to_string()),
+                        _ => {}
+                    }
+                    if let Some(p) = &problem {
+                        case["harness_problem"] = json!(p);
+                        out.harness_problems.push(case.clone());
+                    }
+                    for (k, why) in directed_oracles(&sts, &a, &d.ra, &b, &d.rb) {
+                        out.oracle_failures.push(json!({"kind": k, "why": why, "case": case.clone()}));
+                    }
+                    // observations that are not part of the read clauses
+                    if matches!(a, Call::Insert(..)) && d.ra == Res::Ins(false) {
+                        out.observe("insert-answered-Err-after-its-cold-tier-write-took-effect", case.clone());
+                    }
+                    if matches!(a, Call::Delete(_)) && matches!(b, Call::Delete(_)) && d.ra == Res::Del(true) && d.rb == Res::Del(true) {
+                        out.observe("two-deletes-of-one-document-both-answered-found", case.clone());
+                    }
+                    let writes = |c: &Call| matches!(c, Call::Insert(..) | Call::Delete(_));
+                    if j > 0 && (writes(&a) || writes(&b)) {
+                        out.nontrivial.insert(format!("D|{}|{:?}|{:?}|{}|{:?}|{:?}", sname, a, b, j, d.ra, d.rb));
+                    }
+                    if out.samples.len() < 4 && j > 0 && matches!(a, Call::GetDoc(_)) && matches!(b, Call::Insert(..)) {
+                        out.samples.push(case.clone());
+                    }
+                    out.all_cases.push(case);
+                }
+            }
+        }
+    }
+}
+
+// ------------------------------------------------------------------------------------------------
+// (iii) stress
+// ------------------------------------------------------------------------------------------------
+struct StressCase {
+    pre: Vec<(u64, Option<u32>, bool)>, // id, initial tag, mirrored?
+    programs: Vec<Vec<Call>>,
+}
+fn gen_stress(rng: &mut Rng, base_id: u64, next_tag: &mut u32) -> StressCase {
+    let ids = [base_id, base_id + 1];
+    let mut pre = vec![];
+    for id in ids {
+        if rng.below(3) != 0 {
+            let t = *next_tag;
+            *next_tag += 1;
+            pre.push((id, Some(t), rng.below(2) == 0));
+        } else {
+            pre.push((id, None, false));
+        }
+    }
+    let nthreads = 2 + rng.below(2) as usize;
+    let mut programs = vec![];
+    for _ in 0..nthreads {
+        let n = 2 + rng.below(3) as usize;
+        let mut p = vec![];
+        for _ in 0..n {
+            let id = if rng.below(4) == 0 { ids[1] } else { ids[0] };
+            let k = rng.below(100);
+            p.push(if k < 32 {
+                let t = *next_tag;
+                *next_tag += 1;
+                Call::Insert(id, t, t)
+            } else if k < 46 {
+                Call::Delete(id)
+            } else if k < 62 {
+                Call::Query(id)
+            } else if k < 68 {
+                Call::GetEmb(id)
+            } else if k < 86 {
+                Call::GetDoc(id)
+            } else {
+                Call::Bulk(vec![ids[0], ids[1]])
+            });
+        }
+        programs.push(p);
+    }
+    StressCase { pre, programs }
+}
+fn stress_json(c: &StressCase) -> Value {
+    json!({"kind": "stress",
+        "initial": c.pre.iter().map(|(id, t, m)| json!({"id": id, "tag": t, "mirrored": m})).collect::<Vec<_>>(),
+        "programs": c.programs.iter().map(|p| p.iter().map(call_json).collect::<Vec<_>>()).collect::<Vec<_>>()})
+}
+fn stress_from_json(v: &Value) -> StressCase {
+    StressCase {
+        pre: v["initial"].as_array().unwrap().iter().map(|x| (x["id"].as_u64().unwrap(), x["tag"].as_u64().map(|t| t as u32), x["mirrored"].as_bool().unwrap_or(false))).collect(),
+        programs: v["programs"].as_array().unwrap().iter().map(|p| p.as_array().unwrap().iter().map(call_from_json).collect()).collect(),
+    }
+}
+
+struct StressRun {
+    results: Vec<Vec<(Call, Res, u64, u64)>>, // per thread: call, result, inv seq, res seq
+    writes: Vec<(u64, u64, Option<u32>)>,     // (seq of the doc_store write acquisition, id, value)
+    overlap: bool,
+    problems: Vec<String>,
+}
+fn run_stress(w: &mut World, cl: &mut Classes, c: &StressCase) -> StressRun {
+    for (id, t, mirrored) in &c.pre {
+        let _ = w.eng.delete(*id);
+        w.strat.invalidate(*id);
+        if let Some(t) = t {
+            w.eng.insert(*id, vec_of(*t), meta_of(*t)).expect("initial insert");
+            w.cold_inserts += 1;
+            if !*mirrored {
+                w.eng.hot_tier().delete(*id);
+            }
+        }
+    }
+    vt::drain();
+    vt::clear_gates();
+    vt::enable();
+    let n = c.programs.len();
+    let barrier = Arc::new(Barrier::new(n));
+    let mut handles = vec![];
+    for (ti, prog) in c.programs.iter().enumerate() {
+        let eng = w.eng.clone();
+        let prog = prog.clone();
+        let bar = barrier.clone();
+        handles.push(std::thread::spawn(move || {
+            vt::set_thread_label((ti + 1) as u32);
+            bar.wait();
+            let mut out = vec![];
+            for (ci, call) in prog.iter().enumerate() {
+                vt::mark(&format!("B {} {}", ti, ci));
+                let r = exec(&eng, call);
+                vt::mark(&format!("E {} {}", ti, ci));
+                out.push((call.clone(), r));
+            }
+            out
+        }));
+    }
+    let rs: Vec<Vec<(Call, Res)>> = handles.into_iter().map(|h| h.join().expect("stress thread")).collect();
+    vt::disable();
+    let evs = vt::drain();
+    for p in &c.programs {
+        w.cold_inserts += p.iter().filter(|c| matches!(c, Call::Insert(..))).count();
+    }
+    let mut problems = vec![];
+    let mut begin: HashMap<(usize, usize), u64> = HashMap::new();
+    let mut end: HashMap<(usize, usize), u64> = HashMap::new();
+    for e in &evs {
+        if let Some(t) = &e.text {
+            let p: Vec<&str> = t.split(' ').collect();
+            if p.len() == 3 && (p[0] == "B" || p[0] == "E") {
+                let k = (p[1].parse::<usize>().unwrap(), p[2].parse::<usize>().unwrap());
+                if p[0] == "B" { begin.insert(k, e.seq); } else { end.insert(k, e.seq); }
+            }
+        }
+    }
+    let mut results = vec![];
+    for (ti, r) in rs.into_iter().enumerate() {
+        let mut v = vec![];
+        for (ci, (call, res)) in r.into_iter().enumerate() {
+            match (begin.get(&(ti, ci)), end.get(&(ti, ci))) {
+                (Some(b), Some(e)) => v.push((call, res, *b, *e)),
+                _ => problems.push(format!("markers of call {}/{} missing", ti, ci)),
+            }
+        }
+        results.push(v);
+    }
+    // canonical write order: doc_store write acquisitions, attributed to the enclosing call of their thread
+    let mut writes = vec![];
+    for e in &evs {
+        if e.kind == vt::Kind::Marker || e.phase != vt::Phase::Done || e.op != vt::Op::Acquire || e.mode != vt::Mode::Write || e.thread_label == 0 {
+            continue;
+        }
+        if cl.classify(e.created) != Cls::Model("LkStore") {
+            continue;
+        }
+        let ti = (e.thread_label - 1) as usize;
+        let Some(calls) = results.get(ti) else { continue };
+        match calls.iter().find(|(_, _, b, en)| *b < e.seq && e.seq < *en) {
+            Some((Call::Insert(id, v, _), _, _, _)) => writes.push((e.seq, *id, Some(*v))),
+            Some((Call::Delete(id), _, _, _)) => writes.push((e.seq, *id, None)),
+            Some((c, _, _, _)) => problems.push(format!("doc_store write acquisition inside a read call {:?}", c)),
+            None => problems.push("doc_store write acquisition outside every call window".to_string()),
+        }
+    }
+    writes.sort();
+    let flat: Vec<&(Call, Res, u64, u64)> = results.iter().flatten().collect();
+    let mut overlap = false;
+    for (i, x) in flat.iter().enumerate() {
+        for y in flat.iter().skip(i + 1) {
+            let wr = |c: &Call| matches!(c, Call::Insert(..) | Call::Delete(_));
+            if x.2 < y.3 && y.2 < x.3 && (wr(&x.0) || wr(&y.0)) {
+                overlap = true;
+            }
+        }
+    }
+    StressRun { results, writes, overlap, problems }
+}
+
+fn stress_oracles(c: &StressCase, run: &StressRun) -> Vec<(String, String)> {
+    let mut fails = vec![];
+    let init = |id: u64| c.pre.iter().find(|p| p.0 == id).and_then(|p| p.1);
+    let mut per_key: BTreeMap<u64, Vec<Hop>> = BTreeMap::new();
+    let mut versions: Vec<(u64, u32, u32)> = c.pre.iter().filter_map(|(id, t, _)| t.map(|t| (*id, t, t))).collect();
+    for (ti, calls) in run.results.iter().enumerate() {
+        for (ci, (call, res, b, e)) in calls.iter().enumerate() {
+            if let Res::Bad(s) = res {
+                fails.push(("unwritten-value".to_string(), format!("thread {} call {}: {}", ti, ci, s)));
+            }
+            if let Call::Insert(id, v, m) = call {
+                versions.push((*id, *v, *m));
+            }
+            for (id, h) in key_ops(call, res, *b, *e, &format!("t{}c{}", ti, ci)) {
+                per_key.entry(id).or_default().push(h);
+            }
+        }
+    }
+    for (id, ops) in &per_key {
+        if !linearizable(init(*id), ops) {
+            fails.push(("linearizability".to_string(), format!("id {}: initial {:?}; no linearisation of {:?}", id, init(*id), ops)));
+        }
+        // interval oracle for vector reads, from the recorder's global order of canonical writes
+        for h in ops {
+            if let Kop::Read(v) = &h.op {
+                let mut allowed: Vec<Option<u32>> = vec![];
+                let before: Vec<&(u64, u64, Option<u32>)> = run.writes.iter().filter(|w| w.1 == *id && w.0 < h.inv).collect();
+                allowed.push(before.last().map(|w| w.2).unwrap_or(init(*id)));
+                for w in run.writes.iter().filter(|w| w.1 == *id && w.0 >= h.inv && w.0 <= h.res) {
+                    allowed.push(w.2);
+                }
+                if !allowed.contains(v) {
+                    fails.push(("interval".to_string(), format!("id {}: {} returned {:?}; canonical values during its interval [{}, {}]: {:?}", id, h.who, v, h.inv, h.res, allowed)));
+                }
+            }
+        }
+    }
+    for (ti, calls) in run.results.iter().enumerate() {
+        for (ci, (_, res, _, _)) in calls.iter().enumerate() {
+            for (id, v, m) in pairs_of(res) {
+                if !versions.contains(&(id, v, m)) {
+                    fails.push(("pairing".to_string(), format!("thread {} call {} returned vector of write {} with metadata of write {} for id {}", ti, ci, v, m, id)));
+                }
+            }
+        }
+    }
+    fails
+}
+
+fn run_stress_phase(w: &mut World, scratch: &str, cl: &mut Classes, out: &mut Out, rng: &mut Rng, n: usize, case_no: &mut usize) {
+    let mut next_tag: u32 = 100;
+    for k in 0..n {
+        if next_tag > MAX_TAG - 50 {
+            next_tag = 100;
+        }
+        refresh_world(w, scratch);
+        let c = gen_stress(rng, 1000 + 2 * (k as u64 % 400), &mut next_tag);
+        let run = run_stress(w, cl, &c);
+        let id_no = *case_no;
+        *case_no += 1;
+        out.hist(&format!("stress/{}-threads", c.programs.len()));
+        for p in &c.programs {
+            for call in p {
+                out.hist(&format!("stress-op/{}", op_name(call)));
+            }
+        }
+        let mut case = stress_json(&c);
+        case["case"] = json!(id_no);
+        case["observed"] = json!(run.results.iter().map(|t| t.iter().map(|(call, res, b, e)| json!({"call": call_json(call), "result": res_json(res), "inv_seq": b, "res_seq": e})).collect::<Vec<_>>()).collect::<Vec<_>>());
+        case["canonical_writes_in_order"] = json!(run.writes.iter().map(|(s, id, v)| json!({"seq": s, "id": id, "tag": v})).collect::<Vec<_>>());
+        if !run.problems.is_empty() {
+            case["harness_problem"] = json!(run.problems);
+            out.harness_problems.push(case.clone());
+        }
+        for (kind, why) in stress_oracles(&c, &run) {
+            out.oracle_failures.push(json!({"kind": kind, "why": why, "case": case.clone()}));
+        }
+        if run.overlap {
+            out.nontrivial.insert(format!("S|{}", serde_json::to_string(&case["observed"]).unwrap()));
+        }
+        if k == 0 {
+            out.samples.push(case.clone());
+        }
+        out.all_cases.push(case);
+    }
+}
+
+// ------------------------------------------------------------------------------------------------
+// replay
+// ------------------------------------------------------------------------------------------------
+fn replay(path: &str, scratch: &str, out: &mut Out, cl: &mut Classes, dg: &Digests) {
+    let v: Value = serde_json::from_slice(&std::fs::read(path).expect("replay file")).expect("replay json");
+    let case = if v.get("case").map(|c| c.is_object()).unwrap_or(false) { v["case"].clone() } else { v.clone() };
+    let mut w = mk_world(scratch);
+    match case["kind"].as_str().unwrap_or("") {
+        "directed" | "solo" => {
+            let sts: Vec<(u64, IdState)> = case["states"].as_array().unwrap().iter().map(|s| (s["id"].as_u64().unwrap(), state_from_json(&s["state"]))).collect();
+            let a = call_from_json(if case["kind"] == "solo" { &case["call"] } else { &case["thread_A"] });
+            for (id, s) in &sts {
+                plant(&mut w, *id, s);
+            }
+            let (_, evs, me) = traced(&w, &a);
+            let sk = skeleton(cl, &evs, me);
+            if case["kind"] == "solo" {
+                println!("replay solo: locks {:?}", sk.instrs);
+                return;
+            }
+            let b = call_from_json(&case["thread_B"]);
+            let j = case["pause_before_section"].as_u64().unwrap() as usize;
+            for (id, s) in &sts {
+                plant(&mut w, *id, s);
+            }
+            let d = directed(&w, &a, &b, sk.section_ordinals[j]);
+            let _ = dg;
+            println!("replay directed: A = {:?} -> {:?}; B = {:?} -> {:?}", a, d.ra, b, d.rb);
+            let c2 = json!({"kind": "directed", "states": case["states"], "thread_A": call_json(&a), "thread_B": call_json(&b), "pause_before_section": j,
+                "result_A": res_json(&d.ra), "result_B": res_json(&d.rb)});
+            for (k, why) in directed_oracles(&sts, &a, &d.ra, &b, &d.rb) {
+                out.oracle_failures.push(json!({"kind": k, "why": why, "case": c2.clone()}));
+            }
+            out.all_cases.push(c2);
+        }
+        "stress" => {
+            let c = stress_from_json(&case);
+            for _ in 0..300 {
+                refresh_world(&mut w, scratch);
+                let run = run_stress(&mut w, cl, &c);
+                let fails = stress_oracles(&c, &run);
+                if !fails.is_empty() {
+                    let mut cj = stress_json(&c);
+                    cj["observed"] = json!(run.results.iter().map(|t| t.iter().map(|(call, res, b, e)| json!({"call": call_json(call), "result": res_json(res), "inv_seq": b, "res_seq": e})).collect::<Vec<_>>()).collect::<Vec<_>>());
+                    for (k, why) in fails {
+                        out.oracle_failures.push(json!({"kind": k, "why": why, "case": cj.clone()}));
+                    }
+                    break;
+                }
+            }
+            out.all_cases.push(stress_json(&c));
+        }
+        k => panic!("replay: unknown case kind {:?}", k),
+    }
+}
+
+// ------------------------------------------------------------------------------------------------
+fn write_shard(dir: &str, k: usize, solo: &[String], dirc: &[String]) {
+    let mut s = String::new();
+    s.push_str("From Coq Require Import List NArith ZArith Bool.\nFrom Kyro Require Import Model.TMap Model.Tiered Model.Conc05.\nImport ListNotations.\n");
+    let _ = writeln!(s, "Definition solo_cases : list (nat * (bool * bool * bool)) := [\n{}].", solo.join(";\n"));
+    let _ = writeln!(s, "Definition dir_cases : list (nat * (bool * bool)) := [\n{}].", dirc.join(";\n"));
+    s.push_str("Definition solo_v := Eval vm_compute in solo_cases.\nDefinition dir_v := Eval vm_compute in dir_cases.\n");
+    s.push_str("Definition bad_res := map fst (filter (fun p => negb (fst (fst (snd p)))) solo_v) ++ map fst (filter (fun p => negb (fst (snd p))) dir_v).\n");
+    s.push_str("Definition bad_post := map fst (filter (fun p => negb (snd (fst (snd p)))) solo_v) ++ map fst (filter (fun p => negb (snd (snd p))) dir_v).\n");
+    s.push_str("Definition bad_locks := map fst (filter (fun p => negb (snd (snd p))) solo_v).\n");
+    s.push_str("Definition bad := bad_res ++ bad_post ++ bad_locks.\n");
+    for t in ["bad", "bad_res", "bad_post", "bad_locks"] {
+        let _ = writeln!(s, "Goal True. idtac \"@@{}\". Abort.\nEval vm_compute in {}.", t, t);
+    }
+    s.push_str("Goal True. idtac \"@@count\". Abort.\nEval vm_compute in (length solo_v + length dir_v)%nat.\n");
+    std::fs::write(format!("{}/cases_{}.v", dir, k), s).unwrap();
+}
+
+fn main() {
+    let args: Vec<String> = std::env::args().collect();
+    let get = |k: &str| args.iter().position(|a| a == k).and_then(|i| args.get(i + 1)).cloned();
+    let out_dir = get("--out").expect("--out DIR");
+    let n: usize = get("--n").and_then(|s| s.parse().ok()).unwrap_or(300);
+    let quick = get("--tier").map(|t| t != "thorough").unwrap_or(true);
+    std::fs::create_dir_all(&out_dir).unwrap();
+    let scratch = format!("{}/scratch", out_dir);
+    let _ = std::fs::remove_dir_all(&scratch);
+    let mut rng = Rng::from_env();
+    let dg = Digests::new();
+    let mut cl = Classes::new();
+    let mut out = Out {
+        coq_solo: vec![], coq_dir: vec![], all_cases: vec![], oracle_failures: vec![], histogram: BTreeMap::new(),
+        samples: vec![], nontrivial: HashSet::new(), observations: BTreeMap::new(), harness_problems: vec![],
+    };
+    let t0 = Instant::now();
+    let mut case_no = 0usize;
+    let (mut n_solo, mut n_dir, mut n_stress) = (0usize, 0usize, 0usize);
+    if let Some(r) = get("--replay") {
+        replay(&r, &scratch, &mut out, &mut cl, &dg);
+    } else {
+        let mut w = mk_world(&scratch);
+        run_solo_and_directed(&mut w, &scratch, &mut cl, &dg, &mut out, quick, &mut case_no);
+        n_solo = out.all_cases.iter().filter(|c| c["kind"] == "solo").count();
+        n_dir = out.all_cases.iter().filter(|c| c["kind"] == "directed").count();
+        let before = out.all_cases.len();
+        run_stress_phase(&mut w, &scratch, &mut cl, &mut out, &mut rng, n, &mut case_no);
+        n_stress = out.all_cases.len() - before;
+    }
+    // shards
+    let per = 250usize;
+    let mut shards = 0usize;
+    let mut i = 0usize;
+    let mut first = true;
+    while i < out.coq_dir.len() || first {
+        let hi = (i + per).min(out.coq_dir.len());
+        write_shard(&out_dir, shards, if first { &out.coq_solo } else { &[] }, &out.coq_dir[i..hi]);
+        shards += 1;
+        first = false;
+        i = hi;
+    }
+    let _ = std::fs::remove_dir_all(&scratch);
+    let summary = json!({
+        "cases": out.all_cases.len(), "solo": n_solo, "directed": n_dir, "stress": n_stress,
+        "coq_cases": out.coq_solo.len() + out.coq_dir.len(), "shards": shards,
+        "nontrivial": out.nontrivial.len(),
+        "histogram": out.histogram, "samples": out.samples,
+        "oracle_failures": out.oracle_failures, "harness_problems": out.harness_problems,
+        "observations": out.observations.iter().map(|(k, (n, ex))| json!({"what": k, "count": n, "example": ex})).collect::<Vec<_>>(),
+        "elapsed_ms": t0.elapsed().as_millis() as u64,
+    });
+    std::fs::write(format!("{}/summary.json", out_dir), serde_json::to_vec_pretty(&summary).unwrap()).unwrap();
+    std::fs::write(format!("{}/all_cases.json", out_dir), serde_json::to_vec(&out.all_cases).unwrap()).unwrap();
+    println!(
+        "c05: {} solo, {} directed, {} stress; {} coq cases in {} shards; {} oracle failures; {} harness problems; {} ms",
+        n_solo, n_dir, n_stress, out.coq_solo.len() + out.coq_dir.len(), shards, out.oracle_failures.len(), out.harness_problems.len(), t0.elapsed().as_millis()
+    );
+}
